@@ -23,6 +23,11 @@ def install(R):
     R.shape('DNSCache', {'cache': 'dict[str, dict[DNSRecord, DNSRecord]]',
                          'service_cache': 'dict[str, dict[DNSRecord, DNSRecord]]'})
     R.spec('wf_cache', [('c', 'DNSCache')], 'bool', '(%s) and (%s) and (%s) and (%s)' % (WF, WF_NONEMPTY, WF_SVC, WF_SVC_NONEMPTY))
+    # kind/type consistency of cached records (what the decoder and the ServiceInfo builders produce): a record of
+    # wire type PTR(12)/CNAME(5) is a DNSPointer object.  Needed because the code uses an unchecked typing.cast.
+    R.spec('type_ok', [('r', 'DNSRecord')], 'bool', 'implies(r.type == 12 or r.type == 5, cls_is(r, DNSPointer))')
+    R.spec('typed_cache', [('c', 'DNSCache')], 'bool',
+           'forall("i:ident", lambda i: implies(in_cache(c, i), type_ok(cached(c, i))))')
     R.spec('in_cache', [('c', 'DNSCache'), ('i', 'ident')], 'bool', 'c.cache.has(i.key) and c.cache[i.key].has(i)')
     R.spec('cached', [('c', 'DNSCache'), ('i', 'ident')], 'DNSRecord', 'c.cache[i.key][i]')
 
@@ -61,7 +66,8 @@ def install(R):
                         'forall("i:ident", lambda i: in_cache(self, i) == (old(in_cache(self, i)) or i == ident(record)))',
                         'forall("i:ident", lambda i: implies(in_cache(self, i), '
                         '   cached(self, i) is ite(i == ident(record), record, old(cached(self, i)))))',
-                        'result == (not old(in_cache(self, ident(record))) and not cls_is(record, DNSNsec))'])
+                        'result == (not old(in_cache(self, ident(record))) and not cls_is(record, DNSNsec))',
+                        'implies(old(typed_cache(self)) and type_ok(record), typed_cache(self))'])
     R.contract('zeroconf._cache', 'DNSCache.async_add_records', P, params={'entries': 'list[DNSRecord]'}, returns='bool',
                requires=['wf_cache(self)'],
                modifies=['self.cache', 'self.service_cache'],
@@ -152,5 +158,151 @@ def _gen_remove_key(g):
     return {'cache': getattr(c, which), 'key': key, 'record': rec}
 
 
+def install_flush_specs(R):
+    R.spec('hit_by', [('t', 'tuple[str,int,int]'), ('r', 'DNSRecord')], 'bool',
+           'r.key == lower(t[0]) and r.type == t[1] and r.class_ == t[2]')
+    R.spec('not_in_answers', [('answers', 'list[DNSRecord]'), ('r', 'DNSRecord')], 'bool',
+           'not exists("j:int", lambda j: 0 <= j and j < len(answers) and ident(answers[j]) == ident(r))')
+    R.spec('flush_cond', [('answers', 'list[DNSRecord]'), ('now', 'real'), ('r', 'DNSRecord')], 'bool',
+           'now - old(r.created) > 1000 and not_in_answers(answers, r)')
+    R.spec('flush_hit', [('c', 'DNSCache'), ('unique_types', 'set[tuple[str,int,int]]'), ('answers', 'list[DNSRecord]'),
+                         ('now', 'real'), ('r', 'DNSRecord')], 'bool',
+           'flush_cond(answers, now, r) and exists("t:tuple[str,int,int]", lambda t: unique_types.has(t) and hit_by(t, r))')
+
+
+def _gen_flush(g):
+    c = g.cache()
+    recs = [r for st in c.cache.values() for r in st]
+    ut = set()
+    for _ in range(g.rng.randint(0, 3)):
+        if recs and g.rng.random() < 0.8:
+            r = g.rng.choice(recs)
+            ut.add((g.rng.choice([r.name, r.name.upper(), r.name.lower()]), r.type, r.class_))
+        else:
+            ut.add((g.rng.choice(['a.local.', 'zz.local.']), 1, 1))
+    answers = [g.value('DNSRecord') for _ in range(g.rng.randint(0, 3))]
+    return {'self': c, 'unique_types': ut, 'answers': answers, 'now': g.rng.choice([1500.0, 2001.0, 2500.0, 5000.0])}
+
+
+def _gen_current_entry(g):
+    c = g.cache()
+    ptrs = [r for st in c.cache.values() for r in st if type(r).__name__ == 'DNSPointer']
+    if not ptrs or g.rng.random() < 0.2:
+        return {'self': c, 'name': g.value('str'), 'alias': g.value('str')}
+    r = g.rng.choice(ptrs)
+    var = lambda s_: g.rng.choice([s_, s_, s_.lower(), s_.upper(), s_.swapcase()])
+    clock = g.rng.choice([r.created, r.created + 1000 * r.ttl - 1, r.created + 1000 * r.ttl, r.created + 1000 * r.ttl + 1])
+    return {'self': c, 'name': var(r.name), 'alias': var(r.alias), '__clock__': max(clock, 1.0)}
+
+
 def install_generators(R):
+    R.generators[('zeroconf._cache', 'DNSCache.current_entry_with_name_and_alias')] = _gen_current_entry
     R.generators[('zeroconf._cache', '_remove_key')] = _gen_remove_key
+    R.generators[('zeroconf._cache', 'DNSCache.async_mark_unique_records_older_than_1s_to_expire')] = _gen_flush
+
+
+MATCH = 'i.key == lower(name) and i.type == type_ and i.class_ == class_'
+
+
+def install_lookups(R):
+    """the remaining lookup paths and the flush marking"""
+    by_name = ['forall("i:ident", lambda i: result.has(i) == (in_cache(self, i) and i.key == lower(name)))',
+               'forall("i:ident", lambda i: implies(result.has(i), result[i] is cached(self, i) and result.keyobj(i) is cached(self, i)))']
+    R.contract('zeroconf._cache', 'DNSCache.async_entries_with_name', P, params={'name': 'str'},
+               returns='dict[DNSRecord, DNSRecord]', requires=['wf_cache(self)'], ensures=by_name)
+    R.contract('zeroconf._cache', 'DNSCache.async_entries_with_server', P, params={'name': 'str'},
+               returns='dict[DNSRecord, DNSRecord]', requires=['wf_cache(self)'],
+               ensures=['forall("i:ident", lambda i: result.has(i) == (in_cache(self, i) and cls_is(cached(self, i), DNSService) '
+                        '   and i.server_key == lower(name)))',
+                        'forall("i:ident", lambda i: implies(result.has(i), result[i] is cached(self, i)))'])
+    lst_by_name = ['forall("j:int", lambda j: implies(0 <= j and j < len(result), in_cache(self, ident(result[j])) '
+                   '   and result[j] is cached(self, ident(result[j])) and result[j].key == lower(%s)))',
+                   'forall("i:ident", lambda i: implies(in_cache(self, i) and i.key == lower(%s), '
+                   '   exists("j:int", lambda j: 0 <= j and j < len(result) and result[j] is cached(self, i))))',
+                   'forall("j:int, m:int", lambda j, m: implies(0 <= j and j < m and m < len(result), ident(result[j]) != ident(result[m])))']
+    R.contract('zeroconf._cache', 'DNSCache.entries_with_name', P, params={'name': 'str'}, returns='list[DNSRecord]',
+               requires=['wf_cache(self)'], ensures=[e % 'name' if '%s' in e else e for e in lst_by_name])
+    R.contract('zeroconf._cache', 'DNSCache.entries_with_server', P, params={'server': 'str'}, returns='list[DNSRecord]',
+               requires=['wf_cache(self)'],
+               ensures=['forall("j:int", lambda j: implies(0 <= j and j < len(result), in_cache(self, ident(result[j])) '
+                        '   and result[j] is cached(self, ident(result[j])) and cls_is(result[j], DNSService) '
+                        '   and as_(result[j], DNSService).server_key == lower(server)))',
+                        'forall("i:ident", lambda i: implies(in_cache(self, i) and cls_is(cached(self, i), DNSService) and i.server_key == lower(server), '
+                        '   exists("j:int", lambda j: 0 <= j and j < len(result) and result[j] is cached(self, i))))'])
+    R.contract('zeroconf._cache', 'DNSCache.names', P, returns='list[str]', requires=['wf_cache(self)'],
+               ensures=['forall("j:int", lambda j: implies(0 <= j and j < len(result), self.cache.has(result[j])))',
+                        'forall("k:str", lambda k: implies(self.cache.has(k), exists("j:int", lambda j: 0 <= j and j < len(result) and result[j] == k)))'])
+    R.contract('zeroconf._cache', 'DNSCache.get_all_by_details', P,
+               params={'name': 'str', 'type_': 'int', 'class_': 'int'}, returns='list[DNSRecord]',
+               requires=['wf_cache(self)'],
+               ensures=['forall("j:int", lambda j: implies(0 <= j and j < len(result), in_cache(self, ident(result[j])) '
+                        '   and result[j] is cached(self, ident(result[j])) and result[j].key == lower(name) '
+                        '   and result[j].type == type_ and result[j].class_ == class_))',
+                        'forall("i:ident", lambda i: implies(in_cache(self, i) and %s, '
+                        '   exists("j:int", lambda j: 0 <= j and j < len(result) and result[j] is cached(self, i))))' % MATCH,
+                        'forall("j:int, m:int", lambda j, m: implies(0 <= j and j < m and m < len(result), ident(result[j]) != ident(result[m])))'])
+    R.contract('zeroconf._cache', 'DNSCache.get_by_details', P,
+               params={'name': 'str', 'type_': 'int', 'class_': 'int'}, returns='opt[DNSRecord]',
+               requires=['wf_cache(self)'],
+               ensures=['implies(result is not None, in_cache(self, ident(result)) and result is cached(self, ident(result)) '
+                        '   and result.key == lower(name) and result.type == type_ and result.class_ == class_)',
+                        'implies(result is None, forall("i:ident", lambda i: not (in_cache(self, i) and %s)))' % MATCH],
+               loops={0: Loop(inv=['forall("m:int", lambda m: implies(0 <= m and m < _k, '
+                                   '   not (_it[m].type == type_ and _it[m].class_ == class_)))'])},
+               note='"the last one added" (dict insertion order) is not modelled: some matching entry is returned')
+    R.contract('zeroconf._cache', 'DNSCache.get', P, params={'entry': 'DNSEntry'}, returns='opt[DNSRecord]',
+               requires=['wf_cache(self)'],
+               ensures=['implies(cls_is(entry, DNSRecord) and in_cache(self, ident(entry)), result is cached(self, ident(entry)))',
+                        'implies(not (cls_is(entry, DNSRecord) and in_cache(self, ident(entry))), result is None)'],
+               loops={0: Loop(inv=['forall("m:int", lambda m: implies(0 <= m and m < _k, ident(_it[m]) != ident(entry)))',
+                                   'not cls_is(entry, DNSAddress) and not cls_is(entry, DNSHinfo) and not cls_is(entry, DNSPointer) '
+                                   'and not cls_is(entry, DNSText) and not cls_is(entry, DNSService)'])})
+    R.contract('zeroconf._cache', 'DNSCache.current_entry_with_name_and_alias', P,
+               params={'name': 'str', 'alias': 'str'}, returns='opt[DNSRecord]',
+               requires=['wf_cache(self)', 'typed_cache(self)'], ghost_out={'now': 'real'},
+               ensures=['implies(result is not None, in_cache(self, ident(result)) and result is cached(self, ident(result)) '
+                        '   and result.key == lower(name) and result.type == 12 and cls_is(result, DNSPointer) '
+                        '   and as_(result, DNSPointer).alias == alias and not expired(result, now))',
+                        'implies(result is None, forall("i:ident", lambda i: implies(in_cache(self, i) and i.key == lower(name) '
+                        '   and i.type == 12 and cls_is(cached(self, i), DNSPointer) and as_(cached(self, i), DNSPointer).alias == alias, '
+                        '   expired(cached(self, i), now))))',
+                        'now >= 0'],
+               loops={0: Loop(inv=['forall("m:int", lambda m: implies(0 <= m and m < _k, '
+                                   '  not (_it[m].type == 12 and not expired(_it[m], now) and cls_is(_it[m], DNSPointer) '
+                                   '       and as_(_it[m], DNSPointer).alias == alias)))',
+                                   'now >= 0'])},
+               note='a record of type PTR(12) is assumed to be a DNSPointer object (the decoder builds CNAME(5)/PTR(12) '
+                    'as DNSPointer; the cast in the code makes the same assumption)')
+    # flush marking (RFC 6762 10.2)
+    FL = ('exists("t:tuple[str,int,int]", lambda t: unique_types.has(t) and i.key == lower(t[0]) and i.type == t[1] and i.class_ == t[2])')
+    R.contract('zeroconf._cache', 'DNSCache.async_mark_unique_records_older_than_1s_to_expire', P,
+               params={'unique_types': 'set[tuple[str,int,int]]', 'answers': 'list[DNSRecord]', 'now': 'real'},
+               requires=['wf_cache(self)'],
+               modifies=['DNSRecord.created[*]', 'DNSRecord.ttl[*]'],
+               ensures=['forall("r:DNSRecord", lambda r: implies('
+                        '   in_cache(self, ident(r)) and r is cached(self, ident(r)) and flush_hit(self, unique_types, answers, now, r), '
+                        '   r.created == now and r.ttl == 1))',
+                        'forall("r:DNSRecord", lambda r: implies('
+                        '   not (in_cache(self, ident(r)) and r is cached(self, ident(r)) and flush_hit(self, unique_types, answers, now, r)), '
+                        '   r.created == old(r.created) and r.ttl == old(r.ttl)))'],
+               loops={
+                   0: Loop(inv=[
+                       'forall("r:DNSRecord", lambda r: implies(in_cache(self, ident(r)) and r is cached(self, ident(r)) and flush_cond(answers, now, r) '
+                       '   and exists("m:int", lambda m: 0 <= m and m < _k0 and hit_by(_it0[m], r)), r.created == now and r.ttl == 1))',
+                       'forall("r:DNSRecord", lambda r: implies(not (in_cache(self, ident(r)) and r is cached(self, ident(r)) and flush_cond(answers, now, r) '
+                       '   and exists("m:int", lambda m: 0 <= m and m < _k0 and hit_by(_it0[m], r))), r.created == old(r.created) and r.ttl == old(r.ttl)))',
+                       'forall("k:ident", lambda k: answers_rrset.has(k) == exists("j:int", lambda j: 0 <= j and j < len(answers) and ident(answers[j]) == k))']),
+                   1: Loop(inv=[
+                       'forall("r:DNSRecord", lambda r: implies(in_cache(self, ident(r)) and r is cached(self, ident(r)) and flush_cond(answers, now, r) '
+                       '   and (exists("m:int", lambda m: 0 <= m and m < _k0 and hit_by(_it0[m], r)) '
+                       '        or exists("j:int", lambda j: 0 <= j and j < _k1 and _it1[j] is r)), r.created == now and r.ttl == 1))',
+                       'forall("r:DNSRecord", lambda r: implies(not (in_cache(self, ident(r)) and r is cached(self, ident(r)) and flush_cond(answers, now, r) '
+                       '   and (exists("m:int", lambda m: 0 <= m and m < _k0 and hit_by(_it0[m], r)) '
+                       '        or exists("j:int", lambda j: 0 <= j and j < _k1 and _it1[j] is r))), r.created == old(r.created) and r.ttl == old(r.ttl)))',
+                       'forall("k:ident", lambda k: answers_rrset.has(k) == exists("j:int", lambda j: 0 <= j and j < len(answers) and ident(answers[j]) == k))',
+                       # what the list being iterated is: exactly the cached matches of the current tuple
+                       'forall("j:int", lambda j: implies(0 <= j and j < len(_it1), in_cache(self, ident(_it1[j])) and _it1[j] is cached(self, ident(_it1[j])) '
+                       '   and hit_by(_it0[_k0], _it1[j])))',
+                       'forall("i:ident", lambda i: implies(in_cache(self, i) and hit_by(_it0[_k0], cached(self, i)), '
+                       '   exists("j:int", lambda j: 0 <= j and j < len(_it1) and _it1[j] is cached(self, i))))',
+                       '0 <= _k0 and _k0 < len(_it0)'])})
